@@ -1,5 +1,5 @@
 (* C12 — Selecting a subtree returns exactly that subtree. *)
-From CV Require Import Base.Str Apath ApathP.
+From CV Require Import Base.Str Apath ApathP Entry Store Stitch StitchInst StitchProg Read FrameP.
 
 (* The ancestor test used to select a subtree is ancestry by whole path
    components, for all valid paths (non-ASCII included). *)
@@ -21,3 +21,15 @@ Theorem C12_char_index_version_refuted :
    comp_prefix (comps s_n_tilde) (comps s_n_tilde_x_y) = false).
 Proof. exact is_prefix_of_by_chars_refuted. Qed.
 Print Assumptions C12_char_index_version_refuted.
+
+(* Listing a subtree of a version is the listing program run with the ancestor test as its
+   yield-time filter; for any version that opens it returns the filter of the full stitched
+   listing, in order — and for a complete version exactly the matching entries of its index. *)
+Theorem C12_subtree_listing_is_the_filtered_listing :
+  forall (pre : bytes -> N) (keep : entry -> bool) (a : arch) (b : N),
+    get a PHeader = Some (Good PlJson) -> WFidx a -> head_opens a b = true ->
+    exists (tr : list (op * reply)) (merr : N),
+      run pre (list_prog (Specified b) keep) a [] =
+      (tr, a, Store.Done {| l_ok := true; l_entries := pstitch_keep keep (view a) (N.to_nat b); l_merr := merr |}).
+Proof. exact list_refines. Qed.
+Print Assumptions C12_subtree_listing_is_the_filtered_listing.
